@@ -193,8 +193,25 @@ func runC02(e *Env, r *core.Run) {
 			r.Count(c02alias)
 		}
 	} else {
-		priv = ed25519.NewKeyFromSeed(g.Bytes(32))
+		// the seed is a slice with spare capacity inside a guarded buffer (a seed cut out of a key
+		// file); after derivation the caller wipes it, which must not reach the derived key
+		gs := NewGuarded(g.Bytes(32))
+		seedCopy := clone(gs.B())
+		priv = ed25519.NewKeyFromSeed(gs.B())
 		r.Count(c02keysSeed)
+		content, guard := gs.Intact()
+		if !content || !guard {
+			r.Fail("caller-memory", "seed-buffer-modified", "NewKeyFromSeed modified the caller's seed buffer (seed intact: %v, bytes behind it intact: %v)", content, guard)
+			return
+		}
+		b := gs.B()
+		for i := range b[:cap(b)] {
+			b[:cap(b)][i] = 0
+		}
+		if !bytes.Equal(priv, stded.NewKeyFromSeed(seedCopy)) {
+			r.Fail("exactness", "derived-key-aliases-seed-buffer", "after the caller wiped its seed buffer the derived private key is no longer the RFC 8032 key of the seed")
+			return
+		}
 	}
 	pub = ed25519.PublicKey(priv[32:])
 	seed := priv.Seed()
